@@ -145,7 +145,7 @@ def material_classes():
 
 
 def _recorded_range(mat, fn, probe_c):
-    """Call fn(Tc=probe) with checkTempRange recording: the intersection of the ranges the correlation itself checks,
+    """Call fn(probe) with checkTempRange recording: the intersection of the ranges the correlation itself checks,
     converted to Celsius by comparing the checked value with the probe.  None if the correlation checks nothing."""
     checks = []
 
@@ -154,7 +154,7 @@ def _recorded_range(mat, fn, probe_c):
 
     mat.checkTempRange = rec
     try:
-        fn(Tc=probe_c)
+        fn(probe_c)
     finally:
         del mat.checkTempRange
     lo, hi, labels = -math.inf, math.inf, []
@@ -183,7 +183,8 @@ class MatInfo:
         self.is_fluid = issubclass(cls, material.Fluid)
         self.is_custom = issubclass(cls, custom.Custom)
         m = cls()
-        fn = m.pseudoDensity if self.is_fluid else m.linearExpansionPercent
+        # fluids are asked in Kelvin: the value of the density correlation is an input, however it must be asked for
+        fn = (lambda tc: m.pseudoDensity(Tk=tc + C_TO_K)) if self.is_fluid else (lambda tc: m.linearExpansionPercent(Tc=tc))
         rng = None
         try:
             rng = _recorded_range(m, fn, 123.0)
@@ -199,6 +200,8 @@ class MatInfo:
             ts = [round(lo + f * (hi - lo), 3) for f in fracs]
             try:
                 self.measure(ts)
+            except NotImplementedError:
+                raise               # abstract material class (Water: "use a concrete instance")
             except Exception:  # noqa: BLE001  only default ranges can fail here (e.g. water above saturation)
                 if self.range_c:
                     raise
@@ -211,7 +214,7 @@ class MatInfo:
         solids f = 1 + linearExpansionPercent/100, fluids rho = pseudoDensity."""
         m = self.cls()
         if self.is_fluid:
-            vals = [float(m.pseudoDensity(Tc=t)) for t in temps_c]
+            vals = [float(m.pseudoDensity(Tk=t + C_TO_K)) for t in temps_c]
         else:
             vals = [1.0 + float(m.linearExpansionPercent(Tc=t)) / 100.0 for t in temps_c]
         if any(not math.isfinite(v) or isinstance(v, complex) for v in vals):
